@@ -1,5 +1,6 @@
 import QrlModel.Proofs.DilRanges
-import QrlModel.Props.C13
+import QrlModel.Proofs.DilPack
+import QrlModel.Proofs.DilSigCanon
 /-! Byte layout of keys and signatures: what the unpackers recover from what the packers wrote. -/
 namespace Qrl.NttBridge
 open Gen.Dil Qrl.Dil Qrl.NttTable Qrl.DilProofs Qrl.DilPack
@@ -63,17 +64,17 @@ theorem sle_sle_of_toInt (x : Coeff) (lo hi : Int) (hlo : -2147483648 ≤ lo ∧
   · rw [BitVec.sle_iff_toInt_le, BitVec.toInt_ofInt, n32, bmod32_id hi hhi.1 hhi.2]; exact h.2
 
 theorem eta_rt (a : Poly) (hl : a.length = 256) (hr : Rng (-2) 2 a) : polyEtaUnpack (polyEtaPack a) = a :=
-  C13.eta_lossless a hl (fun x hx => by
+  DilPack.eta_roundtrip a hl (fun x hx => by
     have := sle_sle_of_toInt x (-2) 2 (by omega) (by omega) (hr x hx)
     simpa using this)
 
 theorem t0_rt (a : Poly) (hl : a.length = 256) (hr : Rng (-4095) 4096 a) : polyT0Unpack (polyT0Pack a) = a :=
-  C13.t0_lossless a hl (fun x hx => by
+  DilPack.t0_roundtrip a hl (fun x hx => by
     have := sle_slt_of_toInt x (-4096) 4096 (by omega) (by omega) (by have := hr x hx; omega)
     simpa using this)
 
 theorem z_rt (a : Poly) (hl : a.length = 256) (hr : Rng (-524287) 524288 a) : polyZUnpack (polyZPack a) = a :=
-  C13.z_lossless a hl (fun x hx => by
+  DilPack.z_roundtrip a hl (fun x hx => by
     have := sle_slt_of_toInt x (-524288) 524288 (by omega) (by omega) (by have := hr x hx; omega)
     simpa using this)
 
@@ -83,7 +84,7 @@ theorem ult_of_toInt (x : Coeff) (n : Nat) (hn : n < 2147483648) (h : 0 ≤ x.to
   omega
 
 theorem t1_rt (a : Poly) (hl : a.length = 256) (hr : Rng 0 1023 a) : polyT1Unpack (polyT1Pack a) = a :=
-  C13.t1_lossless a hl (fun x hx => by
+  DilPack.t1_roundtrip a hl (fun x hx => by
     have := ult_of_toInt x 1024 (by omega) (by have := hr x hx; omega)
     simpa using this)
 
@@ -104,6 +105,6 @@ theorem unpackSig_packSig (c : Bytes) (z h : List Poly) (hc : c.length = 32) (hz
   have e3 : (c ++ z.flatMap polyZPack ++ packHints h).drop (32 + L * 640) = packHints h := by
     rw [← List.drop_drop, e2, hL]; exact r2
   dsimp only
-  rw [e3, C13.hints_lossless h hK hv hw, e1, e2, hL, r1]
+  rw [e3, DilHints.hints_roundtrip h hK hv hw, e1, e2, hL, r1]
 
 end Qrl.NttBridge
